@@ -21,41 +21,73 @@ THEOREMS = [
     "Rtosc.C12.rejects_unparsable",
     "Rtosc.C12.rejects_unmatched",
     "Rtosc.C12.load_save_restores_partial",
+    "Rtosc.C12.load_save_restores_scanned_partial",
+    "Rtosc.C12.posinf_not_restored_counterexample",
 ]
 VERIF = os.path.dirname(os.path.dirname(os.path.dirname(os.path.abspath(__file__))))
 # the application pool is fixed (seeded by constants): regenerate the C++ when the generator changes
 SA.write_if_changed(os.path.join(VERIF, "harness", "save_apps.inc"), SA.cxx_source())
 HARNESS = {"src": ["save.cpp"], "deps": ["common.h", "save_apps.inc"], "cxxflags": ["-O0", "-g0"]}
 STATELESS = True
-RULE = ("six generated applications (fixed pool; 10-70 parameter instances each; rParam/rParamI/rParamF/rToggle/"
-        "rOption/rString, rArrayI/F/T, rRecur/rRecurs/rRecurp and enumerated pointer sub-trees, rEnabledBy, "
-        "rDefaultDepends+rPreset(s), rDepends) x states reached by 0..40 random parameter messages (in-range, "
-        "out-of-range, extreme values, symbols and ints for options, strings with quotes/newlines/'%', messages "
-        "into disabled sub-trees, wrong-typed messages); per state: save, scan the file with the library's scanner, "
-        "load into a fresh instance; plus damaged files (header, version, application name, unparsable message, "
-        "unmatched message at every position). Non-trivial = history with at least one message; distinct = distinct op line")
+RULE = ("eleven generated applications (fixed pool; 10-80 parameter instances each; rParam/rParamI/rParamF/rToggle/"
+        "rOption/rString (capacities 4..400), rArrayI/F/T (2..14 elements; defaults spelled element by element, as repetitions "
+        "`6x7`, as ranges `1 ... 5`, or per preset), ports with the enumeration inside their name (`v#3/en`), rRecur/rRecurs/"
+        "rRecurp and enumerated pointer sub-trees, rEnabledBy on sub-trees and on parameters, rDefaultDepends+rPreset(s) "
+        "(chains up to 7 deep, lists up to 16 entries), rDepends on parameters and on sub-trees (lists up to 16 entries), "
+        "rOptions up to 16 entries, sibling names that extend each other) x states reached by 0..40 parameter messages "
+        "(in-range, out-of-range, extreme values incl. +-infinity, symbols - also unknown ones - and ints for options, strings "
+        "with quotes/newlines/'%' up to the capacity and beyond, messages into disabled sub-trees, wrong-typed messages, "
+        "whole-array runs, single array elements, walks down a dependency chain, enable-then-set); per state: save, scan the "
+        "file with the library's scanner, load into a fresh instance; plus damaged files (every token of the two header lines "
+        "replaced or deleted, versions, application name, unparsable message, unmatched / wrong-typed / argument-less message "
+        "at every position) and the dependency metadata of the compiled port tables compared with the declaration. "
+        "Non-trivial = history with at least one message; distinct = distinct op line")
 ASSUMPTIONS = [
     "applications re-apply the defaults of every dependant when a port changes (rChangeCb), and keep disabled "
-    "sub-trees at their defaults (doc/Guide.adoc: a sub-tree is disabled 'if you know that the subtree has not yet been changed')",
-    "state = values of the parameters in enabled sub-trees (what the walk with a runtime object visits)",
-    "no sibling port name is a prefix of another (C18's precondition for Ports::apropos)",
+    "sub-trees and disabled parameters at their defaults (doc/Guide.adoc: a sub-tree is disabled 'if you know that the subtree "
+    "has not yet been changed'); a write to a disabled parameter is ignored",
+    "state = values of the parameters in enabled sub-trees (what the walk with a runtime object visits); a parameter with its "
+    "own rEnabledBy is modelled as a one-port sub-tree and has a constant default (the walk does not skip such a port when "
+    "it is off, but then it holds its default: no line either way)",
+    "hypotheses of the theorems (App.WF, App.MetaCovers, MetaRanked - RtoscModel/Save/Spec.lean), beyond the obvious "
+    "(distinct addresses, acyclic dependency order, storable defaults): WF.anc_chain - two ports of which neither depends on "
+    "the other never share a dependant (the ancestors of every parameter form a chain); WF.array_ok - the elements of a "
+    "`name#N` array have constant defaults and nothing depends on them; MetaCovers - every dependence of the application is "
+    "declared in the metadata scan_deps reads (rDefaultDepends / rDepends / rEnabledBy reach every ancestor, directly or "
+    "through another ancestor); MetaRanked - that metadata is acyclic and less than 64 levels deep. Bool versions of all of "
+    "them are evaluated by the compiled model for every application of the pool on every run (evidence: "
+    "input_distribution.theorem_hypotheses_per_app): they all hold for A0-A5; A6-A10 (rDepends lists naming mutually "
+    "independent ports, rDepends on sub-trees, preset-dependent array defaults) violate anc_chain, A9/A10 also array_ok: "
+    "for those applications only the correspondence and the oracle speak, not the theorems",
     "preset ports are int/option ports at the level of the dependant (get_default_value dispatches the depended "
     "port on the dependant's own Ports); every preset table has an rDefault fall-back",
-    "no NaN / -0.0 float values (the comparison with the default is numeric)",
+    "no NaN / -0.0 float values (the comparison with the default is numeric); +infinity is generated and fails: known "
+    "finding C12-K9 (it is printed `inf (inf)`, which does not scan back)",
+    "array element addresses are spelled canonically (decimal, no leading zeros, < 2^31): rtosc_match_number also takes "
+    "`/arr01` or an index that wraps, the model's address lookup does not (never generated, never written by save_to_file)",
+    "header damage means a wrong token; what sscanf forgives (any amount of white space, also none, between the tokens; "
+    "text behind the last conversion of the second line, which is then read as the first message) is not 'a wrong header'",
     "prerequisite fixes of other properties applied: fixes/C10-02 (the scanner took \"-16 -68\" for a date), "
     "fixes/C10-14 (a char parameter holding NUL was printed as a raw NUL); found through C12's generators",
 ]
 TRUSTED = ["hand-written abstract model RtoscModel/Save/{App,Deps,Load,Save}.lean of get_changed_values, get_default_value, "
            "canonicalize_arg_vals/map_arg_vals, first_equal_index, scan_deps, dispatch_printed_messages, save_to_file, load_from_file",
-           "RtoscModel/Save/Apropos.lean (Ports::apropos on generated names; not covered by theorems)",
-           "the generated applications harness/save_apps.inc and their descriptor (tools/props/saveapps.py)",
+           "RtoscModel/Save/Apropos.lean (Ports::apropos and port_of_path on generated names; not covered by theorems)",
+           "the generated applications harness/save_apps.inc and their descriptor (tools/props/saveapps.py); the dependency "
+           "metadata of the descriptor is compared with the compiled port tables on every run (op `meta`)",
            "text stages (pretty printer / scanner, C10/C11), message encoding (C01), dispatch (C04), callbacks (C14), "
            "argument comparison (C16) enter only through the correspondence"]
-LEVEL_TEXT = ("Lean theorems over the abstract application model (any application satisfying App.WF, any reachable state): "
-              "load(save s) restores s and counts the lines, a line is present iff the value differs from its preset-dependent "
-              "default, damaged files are rejected; the model is compared with the compiled implementation on generated "
-              "applications built from the real macros, and the property is evaluated directly on the implementation's output")
-LEVEL_NOTE = "partial: the theorems are about abstract lines; each text/encoding stage is tied by correspondence only"
+LEVEL_TEXT = ("Lean theorems over the abstract application model, for every application satisfying App.WF (incl. anc_chain and "
+              "array_ok, see assumptions), App.MetaCovers and MetaRanked, and every reachable state: load(save s) restores s and "
+              "counts the lines, a line is present iff the value differs from its preset-dependent default, damaged files are "
+              "rejected; the hypotheses are evaluated (as Bools) for each generated application on every run and hold for six of "
+              "the eleven; all eleven are compared, model against compiled implementation built from the real macros, and the "
+              "property is evaluated directly on the implementation's output")
+LEVEL_NOTE = ("partial: the theorems are about abstract lines (each text/encoding stage is tied by correspondence only; "
+              "load_save_restores_scanned_partial / posinf_not_restored_counterexample state what the text stages of the "
+              "unchanged library lose: +infinity, C12-K9); several theorems (load_counts_lines, rejects_*, saved_iff_differs) "
+              "restate the model's own definitions - 'default' and 'wrong header' have no specification independent of the "
+              "model; there is no theorem about which elements an array line carries beyond load(save s) = s")
 
 
 # ------------------------------------------------------------------------------------
@@ -172,10 +204,30 @@ def gen_history(rng, app, stats, maxlen, lens=(0, 1, 1, 2, 3, 5, 8, 12, 20)):
                 else:
                     v = SA.bval(ab)
                 msgs.append(hmsg(it.addr, v))
+    if arrays and n and rng.random() < 0.2:
+        # single elements of an array (not the first one): the line is cut behind the last element that differs from a
+        # default which may be spelled `6x7` or `1 ... 6`
+        _, base, first, cnt = rng.choice(arrays)
+        stats["array_pokes"] = stats.get("array_pokes", 0) + 1
+        for k in sorted(rng.sample(range(cnt), min(cnt, rng.choice([1, 1, 2, 3])))):
+            it = app.insts[first + (k if rng.random() < 0.3 else max(k, cnt // 2))]
+            msgs.append(hmsg(it.addr, rand_msg_val(rng, it, stats)))
+    guarded = [x for x in app.insts if x.guards]
+    if guarded and n and rng.random() < 0.2:
+        # switch on what enables a parameter (sub-tree toggles, the toggle of its own rEnabledBy), then set it
+        it = rng.choice(guarded)
+        if rng.random() < 0.5:
+            own = [x for x in guarded if x.f.get("en")]
+            if own:
+                it = rng.choice(own)
+        stats["enable_then_set"] = stats.get("enable_then_set", 0) + 1
+        for g, _p in it.guards:
+            msgs.append(hmsg(app.insts[g].addr, ("T",)))
+        msgs.append(hmsg(it.addr, rand_msg_val(rng, it, stats)))
     if n and rng.random() < 0.3:
         # walk down a dependency chain: some ancestors of one parameter, top first, then the parameter itself; the
         # ancestors that are left out stay at their (preset-dependent) defaults and are absent from the file
-        deep = [x for x in app.insts if len(x.ancs) >= 2]
+        deep = [x for x in app.insts if len(x.ancs) >= (1 if rng.random() < 0.4 else 2)]
         if deep:
             it = rng.choice(deep)
             ancs = sorted(it.ancs, key=lambda j: app.rank[j])
@@ -266,8 +318,31 @@ def bad_ops(rng, app, hist, stats):
     return "bad %d %s %s %s %s" % (a.index, a.desc, hist, k, arg)
 
 
+def schedule(apps):
+    """round-robin order of the applications; those with the constructs of the later rounds (A8..) twice"""
+    return list(apps) + [a for a in apps if a.index >= 8]
+
+
+def hypotheses_report(apps):
+    """which hypotheses of the Lean theorems (App.WF clause by clause, MetaCovers, MetaRanked) hold for each application
+    of the pool: Bool versions evaluated by the compiled model (driver mode `wf`)"""
+    import subprocess
+    drv = os.path.join(VERIF, "lean", ".lake", "build", "bin", "drv_save")
+    try:
+        out = subprocess.run([drv], input="".join("wf %d %s - - -\n" % (a.index, a.desc) for a in apps),
+                             capture_output=True, text=True, timeout=300).stdout.split("\n")
+    except Exception as e:      # no driver yet: nothing to report
+        return {"error": str(e)}
+    rep = {}
+    for a, l in zip(apps, out):
+        failing = [kv.split("=")[0] for kv in l.split()[1:] if kv.endswith("=0") and kv != "array_shape=0"]
+        rep[a.appid] = "all hold" if l.startswith("WF ") and not failing else "not: " + ",".join(failing) if l.startswith("WF ") else l
+    return rep
+
+
 def generate(rng, tier, stats):
     apps = SA.pool()
+    stats["theorem_hypotheses_per_app"] = hypotheses_report(apps)
     n = 4000 if tier == "quick" else 150000
     stats.update({"apps": len(apps), "params_per_app": [len(a.insts) for a in apps], "hist_len": {}, "wrong_type_msgs": 0,
                   "sl_ops": 0, "bad_ops": 0})
@@ -275,8 +350,9 @@ def generate(rng, tier, stats):
         prepare(a)
         yield "sl %d %s - - -" % (a.index, a.desc)
         yield "meta %d %s - - -" % (a.index, a.desc)
+    sched = schedule(apps)
     for i in range(n):
-        a = apps[i % len(apps)]
+        a = sched[i % len(sched)]
         hist = gen_history(rng, a, stats, 40)
         if rng.random() < 0.8:
             stats["sl_ops"] += 1
